@@ -613,8 +613,10 @@ class World:
 # JSON encoding of events (bytes are tagged hex; tuples become lists)
 
 def enc(o):
-    if isinstance(o, (bytes, bytearray)):
-        return {'$b': bytes(o).hex()}
+    if isinstance(o, bytearray):
+        return {'$ba': bytes(o).hex()}      # (not the same thing as bytes to an API that checks its argument types)
+    if isinstance(o, bytes):
+        return {'$b': o.hex()}
     if isinstance(o, dict):
         if all(isinstance(k, str) for k in o):
             return {k: enc(v) for k, v in o.items()}
@@ -630,6 +632,8 @@ def dec(o):
     if isinstance(o, dict):
         if '$b' in o and len(o) == 1:
             return bytes.fromhex(o['$b'])
+        if '$ba' in o and len(o) == 1:
+            return bytearray.fromhex(o['$ba'])
         if '$d' in o and len(o) == 1:
             return {dec(k): dec(v) for k, v in o['$d']}
         if '$r' in o and len(o) == 1:
